@@ -159,9 +159,13 @@ class C19(Prop):
                    'documented IndexError) and result-vs-raise; the code echoed inside the exception only when the '
                    'server sent one — never the codes the library invents for replies without one; for request ids the order relation and the number of requests — not '
                    'the values nor where the counter starts nor whether two proxies share a counter; cases outside '
-                   'the quantifier (non-reply bodies, non-integer codes, NaN/Infinity/null amounts, amounts outside '
-                   '0..21e14 or with sub-satoshi digits, non-hex hash strings, non-bytes arguments, no HTTP response) '
-                   'are tagged ood: a divergence there is a NOTE in the evidence, never a violation',
+                   'the quantifier (valid JSON that is not an object, NaN/Infinity/null amounts, amounts outside '
+                   '0..21e14 or with sub-satoshi digits, non-hex hash strings, non-bytes arguments) are tagged ood: a '
+                   'divergence there is a NOTE in the evidence, never a violation.  Bodies that are no JSON at all '
+                   '(incl. not UTF-8) and a missing response are in the domain with "raises an error, never a result"; '
+                   'error replies with a non-integer code with "raises an RPC error (or the documented IndexError), '
+                   'never a result"; every c19.reply case is bracketed by two further calls on the same proxy and all '
+                   'ids it sent must strictly increase; close() is an event of the histories',
                    'typed Proxy methods: conversion of non-error results is modelled only for amounts (amountIn), '
                    'hashes (chain) and gettxout\'s IndexError on a null result; what e.g. getblock does with a null or '
                    'malformed result (AttributeError / binascii.Error of the conversion) is not an error reply and '
@@ -280,19 +284,15 @@ class C19(Prop):
             return not (len(h) % 2 == 0 and all(ch in '0123456789abcdefABCDEF' for ch in h))
         if kind == 'reply':
             m, spec = args
-            if spec == 'none' or spec.startswith(('nonobj=', 'nonutf8=')):
-                return True                       # no reply / not a reply object: not an "error reply"
-            if spec.startswith('obj:dict='):
-                code = spec[len('obj:dict='):].rsplit(':', 1)[0]
-                if code.startswith('dec=') or code in ('true', 'false', 'null', 'str', 'nan', 'inf', '-inf'):
-                    return True                   # JSON-RPC codes are integers
+            if spec.startswith('nonobj='):
+                return True                       # valid JSON that is no reply object: not in the quantifier
             if m == 'gettxout' and spec.endswith(':v=@null') and not spec.startswith('obj:dict=') \
                     and not spec.startswith('obj:other='):
                 return True                       # gettxout's own IndexError for "not found"
             return False
         if kind == 'nonbytes':
             return True
-        return False
+        return False                              # (incl. `close`)
 
     def _is_ood(self, c):
         op, a = c['op'], c['args']
@@ -476,6 +476,10 @@ class C19(Prop):
                    'chain|srt-grt|' + 'zz' * 32, 'chain|gen-gb|abc']
         for m in self.IN_METHODS:
             earlier += ['in|%s|1e999992' % m, 'in|%s|NaN' % m, 'in|%s|null' % m]
+        for n_, code in enumerate(sorted(set(SPEC_CODES) | set(tree_codes) | {-1, 0, 1, -3, -32601, 2 ** 31, -29})):
+            m = ('call', 'getblock', 'getblockhash', 'sendrawtransaction', 'getbalance')[n_ % 5]
+            earlier.append('reply|%s|obj:dict=int=%d:%s' % (m, code, ('absent', 'v=x')[n_ % 2]))
+        earlier += ['close', 'reply|call|obj:dict=dec=-27.0:absent', 'reply|call|obj:dict=str:absent']
         probes = ['in|listunspent|20999999.99999999', 'in|getbalance|' + R30, 'in|gettxout|0.10000000' + '0' * 30,
                   'in|getreceivedbyaddress|1e999992', 'in|getinfo.paytxfee|NaN', 'out|sendtoaddress|2099999997690000',
                   'reply|call|obj:dict=int=-5:v=x', 'chain|best-gb|' + '0f' * 32, 'reply|call|obj:null:v=abc']
@@ -500,7 +504,7 @@ class C19(Prop):
                     yield mk('c19.nonbytes', m, kind, tag='nonbytes')
 
         # (f) id sequences
-        toks = ['ok', 'err', 'bad', 'none', 'miss', 'batch', 'nonutf8', 'nonobj', 'connfail', 'reqfail']
+        toks = ['ok', 'err', 'bad', 'none', 'miss', 'batch', 'nonutf8', 'nonobj', 'connfail', 'reqfail', 'close']
         for n in range(2000 if big else 40):
             hist = [srng.choice(toks) for _ in range(srng.choice([1, 2, 50, 50, 50, 120]))]
             if mine():
@@ -698,8 +702,27 @@ class C19(Prop):
         return ('{%s}' % ', '.join(members)).encode()
 
     def _reply(self, method, spec, pc=None):
-        raw = method == 'raw'
-        p, conn = pc or self.proxy(raw=raw)
+        if pc is not None:
+            return self._reply1(method, spec, pc)
+        # a single reply case: the proxy makes a call before and a call after it, and every id it sends must be
+        # strictly greater than all ids it sent before (whatever the reply in between was)
+        pc = self.proxy(raw=method == 'raw')
+        p, conn = pc
+        probe = (lambda: p.probe()) if method == 'raw' else (lambda: p.call('probe'))
+        conn.script(ok_reply('0'))
+        probe()
+        try:
+            out = self._reply1(method, spec, pc)
+        finally:
+            conn.script(ok_reply('0'))
+            probe()
+            ids = [json.loads(b).get('id') for (_, _, b, _) in conn.requests]
+        if not all(isinstance(i, int) for i in ids) or not all(ids[k] < ids[k + 1] for k in range(len(ids) - 1)):
+            return '%s|ids-not-increasing:%s' % (out, ','.join(str(i) for i in ids))
+        return out
+
+    def _reply1(self, method, spec, pc):
+        p, conn = pc
         conn.script(self._render_reply(spec))
         C = self.core
         h32 = b'\x07' * 32
@@ -755,6 +778,9 @@ class C19(Prop):
                     conn.script(b'[]')
                     batch([{'version': '1.1', 'method': 'm', 'params': [], 'id': 7}])
                 continue
+            if t == 'close':
+                p.close()
+                continue
             if t == 'reqfail':
                 conn.fail_next_request = TimeoutError('scripted')
             else:
@@ -792,7 +818,10 @@ class C19(Prop):
                 continue
             pc = pcs[int(f[0])]
             kind = f[1]
-            if kind == 'in':
+            if kind == 'close':
+                pc[0].close()                  # http.client reconnects on the next request; the proxy lives on
+                outs.append('-')
+            elif kind == 'in':
                 outs.append(guarded(lambda: str(self._amount_in(f[2], f[3], pc))))
             elif kind == 'out':
                 outs.append(guarded(lambda: self._amount_out(f[2], int(f[3]), pc, sink, idx)))
@@ -904,8 +933,38 @@ class C19(Prop):
         code = spec[len('obj:dict='):].rsplit(':', 1)[0]
         return code not in ('absent', 'empty')
 
+    NONINT = ('dec', 'true', 'false', 'null', 'str', 'float')
+
+    @classmethod
+    def _reply_mode(cls, spec):
+        """what the statement supports for a scripted reply:
+        'any-error'  a body that is no JSON at all / no response: "raises an error, never yields a result";
+        'rpc-error'  an error reply whose code is not an integer: no class is registered for it, so "raises an RPC
+                     error (or the wrapper's documented IndexError), never a result";
+        'strict'     everything else: the class registered for the code / the base class, or the result"""
+        if spec == 'none' or spec.startswith(('nonutf8=', 'nonjson=')):
+            return 'any-error'
+        if spec.startswith('obj:dict='):
+            code = spec[len('obj:dict='):].rsplit(':', 1)[0]
+            if code.startswith('dec=') or code in ('true', 'false', 'null', 'str', 'nan', 'inf', '-inf'):
+                return 'rpc-error'
+        return 'strict'
+
     @classmethod
     def _step_same(cls, io, mo, spec=None):
+        if spec is not None and cls._reply_mode(spec) != 'strict':
+            if '|ids-not-increasing:' in io:
+                return False
+            if cls._reply_mode(spec) == 'any-error':
+                model_ok = mo in ('raise:JSONRPCError:-342', 'err:py:UnicodeDecodeError')
+                return model_ok and io.startswith(('raise:', 'err:'))
+            f = mo.split(':')
+            model_ok = mo == 'err:py:IndexError' or (len(f) == 3 and f[0] == 'raise' and f[2] in cls.NONINT)
+            return model_ok and (io.startswith('raise:') or io == 'err:py:IndexError')
+        return cls._step_same_strict(io, mo, spec)
+
+    @classmethod
+    def _step_same_strict(cls, io, mo, spec=None):
         """compare one answer.  `raise:<Class>:<code>`: the statement constrains the CLASS raised for the code; the
         code echoed inside the exception is compared only when the server sent one and it could be read (`?`)."""
         if not (io.startswith('raise:') and mo.startswith('raise:')):
